@@ -109,8 +109,14 @@ def ensure_facts(cfgs, log=sys.stderr):
         fxh = tree_hash(os.path.join(VERIF, "fixtures", "zkfix"), dv)
     base = os.path.join(CACHE, "facts", th)
     res = {}
-    lock = open(os.path.join(CACHE, "lock"), "w")
+    # one lock per analysed tree (several trees - /repo and scratch worktrees - may be extracted at the same time); the fixture
+    # crate is shared by all of them and has its own lock
+    lock = open(os.path.join(CACHE, "lock-" + th), "w")
     fcntl.flock(lock, fcntl.LOCK_EX)
+    fxlock = None
+    if FIXTURE_CFG in cfgs and not os.path.exists(os.path.join(CACHE, "facts-fixtures", fxh, "META")):
+        fxlock = open(os.path.join(CACHE, "lock-fixtures"), "w")
+        fcntl.flock(fxlock, fcntl.LOCK_EX)
     try:
         todo = []
         dirs = {}
@@ -153,7 +159,14 @@ def ensure_facts(cfgs, log=sys.stderr):
             with ThreadPoolExecutor(max_workers=min(6, len(todo))) as ex:
                 for cfg, meta in ex.map(work, todo):
                     res[cfg] = meta
-        # garbage-collect old fact sets (keep the 6 most recent trees)
+        # garbage-collect old fact sets (keep the 6 most recent trees) and lock files of trees that are long gone
+        try:
+            import time
+            for x in os.listdir(CACHE):
+                if x.startswith("lock-") and x != "lock-fixtures" and x != "lock-" + th and time.time() - os.path.getmtime(os.path.join(CACHE, x)) > 86400:
+                    os.unlink(os.path.join(CACHE, x))
+        except Exception:
+            pass
         try:
             fd = os.path.join(CACHE, "facts")
             ds = sorted((os.path.getmtime(os.path.join(fd, x)), x) for x in os.listdir(fd))
@@ -163,6 +176,9 @@ def ensure_facts(cfgs, log=sys.stderr):
         except Exception:
             pass
     finally:
+        if fxlock is not None:
+            fcntl.flock(fxlock, fcntl.LOCK_UN)
+            fxlock.close()
         fcntl.flock(lock, fcntl.LOCK_UN)
         lock.close()
     return res
